@@ -20,6 +20,91 @@ MUTANTS = {
         ('while-test-inverted', IN, 'if condition_result.is_success() != is_while {', 'if condition_result.is_success() == is_while {'),
         ('body-gets-cond-params', IN, 'result = body.list.execute(shell, params).await?;', 'result = body.list.execute(shell, &condition_params).await?;'),
     ],
+    'U4b': [
+        ('for-no-decrement', IN, '''            let is_break = result.is_break();
+
+            result.next_control_flow = result.next_control_flow.try_decrement_loop_levels();
+
+            if is_break || result.is_continue() {
+                break;
+            }
+        }
+
+        shell.set_last_exit_status(result.exit_code.into());
+        Ok(result)
+    }
+}
+
+#[async_trait::async_trait]
+impl Execute for ast::CaseClauseCommand''', '''            let is_break = result.is_break();
+
+            if is_break || result.is_continue() {
+                break;
+            }
+        }
+
+        shell.set_last_exit_status(result.exit_code.into());
+        Ok(result)
+    }
+}
+
+#[async_trait::async_trait]
+impl Execute for ast::CaseClauseCommand'''),
+        ('for-return-decremented', IN, '''            result = self.body.list.execute(shell, params).await?;
+            if result.is_return_or_exit() {
+                break;
+            }
+
+            let is_break = result.is_break();
+
+            result.next_control_flow = result.next_control_flow.try_decrement_loop_levels();
+
+            if is_break || result.is_continue() {
+                break;
+            }
+        }
+
+        shell.set_last_exit_status(result.exit_code.into());
+        Ok(result)
+    }
+}
+
+#[async_trait::async_trait]
+impl Execute for ast::CaseClauseCommand''', '''            result = self.body.list.execute(shell, params).await?;
+            if result.is_return_or_exit() || result.is_break() {
+                break;
+            }
+
+            result.next_control_flow = result.next_control_flow.try_decrement_loop_levels();
+
+            if result.is_continue() {
+                break;
+            }
+        }
+
+        shell.set_last_exit_status(result.exit_code.into());
+        Ok(result)
+    }
+}
+
+#[async_trait::async_trait]
+impl Execute for ast::CaseClauseCommand'''),
+        ('for-var-local-scope', IN, '''                ShellValueLiteral::Scalar(value),
+                |_| Ok(()),
+                EnvironmentLookup::Anywhere,
+                EnvironmentScope::Global,
+            )?;
+
+            result = self.body.list.execute''', '''                ShellValueLiteral::Scalar(value),
+                |_| Ok(()),
+                EnvironmentLookup::OnlyInCurrentLocal,
+                EnvironmentScope::Local,
+            )?;
+
+            result = self.body.list.execute'''),
+        ('for-words-dropped-on-append', IN, 'expanded_values.append(&mut expanded);', 'expanded_values = expanded;'),
+        ('for-args-ignored', IN, 'expanded_values.extend_from_slice(shell.current_shell_args());', ''),
+    ],
     'U4c': [
         ('cond-zero-continues', IN, 'condition.eval(shell, params, true).await? == 0 {', 'condition.eval(shell, params, true).await? != 0 {'),
         ('updater-before-break-check', IN, '''            if is_break || result.is_continue() {
